@@ -39,7 +39,7 @@ m=json.load(open(sys.argv[1]))
 out={"property":m.get("property"),"title":m.get("title"),"site":m.get("site"),"what_it_breaks":m.get("what_it_breaks"),
  "needs_to_manifest":m.get("needs_to_manifest"),"demo_pkg_dir":m.get("demo_pkg_dir"),"demo_file":m.get("demo_file"),"demo_run":m.get("demo_run"),
  "origin":"independent sub-agent given only the property text and a scratch worktree",
- "confirmed_by_me":{"worktree":"scratch worktree of /repo at 8073da8 under /tmp/seedwt (removed afterwards)",
+ "confirmed_by_me":{"worktree":"scratch worktree of /repo HEAD (with the fix: commits of that time) under /tmp/seedwt (removed afterwards)",
    "ran":["go build ./... && go test -run '^$' ./... (with patch): ok","go test -vet=off -count=1 -timeout 25m ./... (with patch, demo removed): ok",
           "go test -run Demo ./<demo_pkg_dir> without patch: pass","go test -run Demo ./<demo_pkg_dir> with patch: FAIL"]},
  "detected_by":"see DESIGN.md section 'Seeded changes'"}
